@@ -1043,6 +1043,46 @@ theorem c19_absent_partial (hdr : List Str) (bs : List Block) (trailer : List St
 example : trailerDefines (["", "    def run(self):", "        \"\"\"run it\"\"\"", "        return 0"].map String.toList)
     "total".toList = false := by decide
 
+/-- FULL STATEMENT (no comment token ⇒ no inline text): a definition line on which the tokenizer
+    pass finds no comment has an empty inline comment. -/
+def FullStatement_inline : Prop :=
+  ∀ l : Str, lineModelled l = true → (∀ body, inlineTok l ≠ .comment body) → inlineComment l = []
+
+/-- finding C19-multiline-hash: the opening line of a multi-line definition, with a `#` inside a
+    string literal and no comment: the tokenizer raises at the end of the line (open bracket), and
+    the fallback takes what follows the first `#` -/
+theorem c19_multiline_hash_witness : ¬ FullStatement_inline := by
+  intro h
+  have he : inlineTok "    color: str = field(default=\"#fff\",".toList = .error := by decide
+  have := h "    color: str = field(default=\"#fff\",".toList (by decide) (by intro body hb; rw [he] at hb; cases hb)
+  revert this
+  decide
+
+example : inlineComment "    color: str = field(default=\"#fff\",".toList = "fff\",".toList := by decide
+/-- with a real comment on the opening line the comment token is found before the error -/
+example : inlineComment "    color: str = field(default=\"#fff\",  # title bar".toList = "title bar".toList := by decide
+
+/-- named exclusion: the line opens a multi-line expression or leaves a string unterminated -/
+def opensMultiline (l : Str) : Bool := inlineTok l == .error
+
+theorem c19_inline_partial (l : Str) (hm : lineModelled l = true) (hex : opensMultiline l = false)
+    (hno : ∀ body, inlineTok l ≠ .comment body) : inlineComment l = [] := by
+  unfold inlineComment
+  by_cases hc : l.contains '#' = true
+  · simp only [hc, Bool.not_true, Bool.false_eq_true, ↓reduceIte]
+    cases ht : inlineTok l with
+    | comment body => exact absurd ht (hno body)
+    | noComment => rfl
+    | error => simp [opensMultiline, ht] at hex
+    | unmodelled =>
+      exfalso
+      have hmem : '#' ∈ l := List.contains_iff_mem.mp hc
+      simp [lineModelled, ht, hmem] at hm
+  · have hmem : '#' ∉ l := fun h => hc (List.contains_iff_mem.mpr h)
+    simp [hmem]
+
+example : opensMultiline "    x: str = \"#ff0000\"".toList = false ∧ lineModelled "    x: str = \"#ff0000\"".toList = true := by decide
+
 /-! ### repaired findings, now full theorems -/
 
 theorem cfd_congr {l l' : Str} (h : before '#' l = before '#' l') :
